@@ -761,15 +761,22 @@ func (idx *indexer) indexBulkSince(txID uint64, restarting bool) error {
 						txmd = prevTxHdr.Metadata.Bytes()
 					}
 
-					var kvmd *KVMetadata
+					// metadata read from the tx log is read-only: the delete marker gets its own copy
+					kvmd := NewKVMetadata()
 
-					if prevEntry.Metadata() != nil {
-						kvmd = prevEntry.Metadata()
-					} else {
-						kvmd = NewKVMetadata()
+					if prevMD := prevEntry.Metadata(); prevMD != nil && prevMD.IsExpirable() {
+						expTime, err := prevMD.ExpirationTime()
+						if err != nil {
+							return err
+						}
+
+						err = kvmd.ExpiresAt(expTime)
+						if err != nil {
+							return err
+						}
 					}
 
-					kvmd.AsDeleted(true)
+					err = kvmd.AsDeleted(true)
 					if err != nil {
 						return err
 					}
